@@ -227,6 +227,95 @@ def model_cmd(model, pre_events, req, agent, real_new_events, po=None):
     return model.ask({"op": "cmd", "events": pre_events, "env": env, "req": mreq})
 
 
+def go_ns(text):
+    """RFC3339Nano text → decimal ns since Go's zero time (what the model's Time is); "" → "0" """
+    import calendar, re as _re, time as _t
+    if not text:
+        return "0"
+    m = _re.match(r"^(\d{4})-(\d\d)-(\d\d)T(\d\d):(\d\d):(\d\d)(?:\.(\d{1,9}))?Z$", text)
+    if not m:
+        return "unparsed:" + text
+    y, mo, d, h, mi, sec = (int(x) for x in m.groups()[:6])
+    secs = calendar.timegm((y, mo, d, h, mi, sec, 0, 0, 0)) + 62135596800
+    return str(secs * 10**9 + int((m.group(7) or "0").ljust(9, "0")))
+
+
+def canon_reply(req, stdout):
+    """the single JSON value a successful `--json` command printed → the model's reply shape (Driver.Wire.replyJson)"""
+    try:
+        v = json.loads(stdout)
+    except Exception as e:
+        return {"k": "unparsed", "why": str(e)[:80]}
+    edges = lambda es: [[e["from_id"], e["to_id"]] for e in es]
+    c = req["cmd"]
+    if c in ("new_task", "new_epic"):
+        return {"k": "created", "kind": v.get("kind"), "id": v.get("id"), "uuid": v.get("uuid"), "epic_id": v.get("epic_id"), "state": v.get("state"),
+                "title": v.get("title"), "body": v.get("body"), "created_at": go_ns(v.get("created_at"))}
+    if c == "set":
+        return {"k": "set", "id": v.get("id"), "updated_fields": v.get("updated_fields") or [], "state": v.get("state"), "claimed_by": v.get("claimed_by", "")}
+    if c in ("claim", "claim_oldest"):
+        if v.get("status") == "no_ready":
+            return {"k": "no_ready"}
+        return {"k": "claimed", "id": v.get("id"), "epic": v.get("epic"), "state": v.get("state"), "title": v.get("title"), "body": v.get("body"),
+                "agent_id": v.get("agent_id"), "claimed_at": go_ns(v.get("claimed_at"))}
+    if c == "sequence":
+        return {"k": "sequence", "action": v.get("action"), "edges": edges(v.get("edges") or [])}
+    if c == "prune":
+        return {"k": "pruned", "dry_run": v.get("dry_run"), "ids": sorted(v.get("pruned_ids") or [])}
+    if c == "compact":
+        return {"k": "compacted"} if v.get("status") == "ok" else {"k": "compact?", "v": v}
+    if c == "plan":
+        return {"k": "planned", "epic_id": v["epic"]["id"], "epic_uuid": v["epic"]["uuid"], "title": v["epic"]["title"], "created_at": go_ns(v["epic"]["created_at"]),
+                "tasks": [[t["id"], t["title"]] for t in v.get("tasks") or []], "edges": edges(v.get("edges") or [])}
+    return {"k": "?", "v": v}
+
+
+LIST_OPTS = [{}, {"all": True}, {"ready": True}, {"epics": True}]
+
+
+def canon_list(v):
+    return [{"kind": i.get("kind", ""), "id": i["id"], "epic_id": i.get("epic_id", ""), "state": i["state"], "claimed_by": i.get("claimed_by", ""), "title": i["title"],
+             "ready": i["ready"], "blocked": i["blocked"], "has_results": i.get("has_results", False)} for i in v]
+
+
+def canon_show_item(i):
+    return {"id": i["id"], "uuid": i["uuid"], "epic_id": i["epic_id"], "state": i["state"], "claimed_by": i["claimed_by"], "claimed_at": go_ns(i["claimed_at"]),
+            "created_at": go_ns(i["created_at"]), "updated_at": go_ns(i["updated_at"]), "deps": i["deps"] or [], "rdeps": i["rdeps"] or [], "title": i["title"], "body": i["body"],
+            "results": [{"summary": x["summary"], "path": x["path"], "sha": x["sha256_at_attach"], "mtime": x.get("mtime_at_attach", ""), "git": x.get("git_commit_at_attach", ""),
+                         "at": go_ns(x["created_at"])} for x in (i.get("results") or [])]}
+
+
+def compare_views(store, model, events, ids, epic=""):
+    """`list --json` (default / --all / --ready / --epics, optionally within an epic) and `show --json <id>` of the real binary against the model's
+    View functions on the same log; returns None or a description of the first difference"""
+    from .fndiff import first_difference
+    opts = [dict(o) for o in LIST_OPTS] + ([dict(o, epic=epic) for o in LIST_OPTS[:3]] if epic else [])
+    m = model.ask({"op": "view", "events": events, "lists": opts, "shows": ids})
+    if "err" in m:
+        return None
+    for o, want in zip(opts, m["lists"]):
+        argv = ["--json", "list"] + (["--all"] if o.get("all") else []) + (["--ready"] if o.get("ready") else []) + (["--epics"] if o.get("epics") else []) + (["--epic", o["epic"]] if o.get("epic") else [])
+        r = store.exec(argv)
+        if r["exit"] != 0:
+            if o.get("epic"):
+                continue         # the epic filter validates its argument; refusals are the command tie's business
+            return "%s: exit %s %s" % (" ".join(argv), r["exit"], r["stderr"].strip()[:100])
+        got = canon_list(json.loads(r["stdout"]) or [])
+        if common.canon(got) != common.canon(want):
+            return "%s: %s" % (" ".join(argv), first_difference(got, want))
+    for i, want in zip(ids, m["shows"]):
+        r = store.exec(["--json", "show", i])
+        if ("err" in want) != (r["exit"] != 0):
+            return "show %s: exit %s, model %s" % (i, r["exit"], want.get("err", "ok"))
+        if r["exit"] != 0:
+            continue
+        v = json.loads(r["stdout"])
+        got = {"epic": canon_show_item(v["epic"]), "children": [canon_show_item(c) for c in v["children"]]} if "epic" in v and "children" in v else {"item": canon_show_item(v)}
+        if common.canon(got) != common.canon(want):
+            return "show %s: %s" % (i, first_difference(got, want))
+    return None
+
+
 def run_and_compare(store, model, req, agent="", po=None, json_out=True, pre_graph=None):
     """Run one mutating command for real and in the model. Returns a record with `diff` (None = agree)."""
     pre = store.graph() if pre_graph is None else pre_graph
@@ -261,8 +350,16 @@ def run_and_compare(store, model, req, agent="", po=None, json_out=True, pre_gra
     elif common.canon(mlog) != common.canon(qe):
         from .fndiff import first_difference
         rec["diff"] = "log after: " + str(first_difference(qe, mlog))
+    elif r["exit"] == 0 and json_out and m.get("reply") is not None:
+        got = canon_reply(req, r["stdout"])
+        if common.canon(got) != common.canon(m["reply"]):
+            from .fndiff import first_difference
+            rec["diff"] = "reply: " + str(first_difference(got, m["reply"]))
+    elif r["exit"] == 0 and json_out and m.get("reply") is None and m.get("err") is None:
+        rec["diff"] = "reply: the model has no reply for a command that succeeded"
     rec["model_post"] = m.get("post")
     rec["model_created"] = m.get("created")
+    rec["model_reply"] = m.get("reply")
     return rec
 
 
